@@ -263,6 +263,10 @@ func (c *Ctx) evalModEntry(e SExpr, qvars []Term, guard Term) []ModEntry {
 			if mt, ok := fv.Typ.Underlying().(*types.Map); ok {
 				return []ModEntry{{qvars: qvars, guard: guard, id: fv.T, heaps: c.mapLeafRefs(mt), src: src}}
 			}
+			if _, isPtr := fv.Typ.Underlying().(*types.Pointer); isPtr && classify(fv.Typ) == TRef {
+				// a pointer-typed field names the object it refers to
+				return []ModEntry{{qvars: qvars, guard: guard, id: fv.T, heaps: c.structLeaves(fv.Typ), src: src}}
+			}
 		}
 		base := c.evalSpec(x.X)
 		if base.K == VScalar && base.Typ != nil {
